@@ -40,6 +40,18 @@ macro_rules! rw_case {
                 let r = unsafe { target.read() };
                 expect_one(concat!("Port<", stringify!($T), ">::read"), Op::In, $W, port, $dev)?;
                 ensure_eq!(r as u64, $dev & mask($W), "Port<{}>::read return value for device reply {:#x}", stringify!($T), $dev);
+                // every read is a device access of its own: two reads in a row and a read whose value is dropped
+                c.push_in(!$dev);
+                c.push_in($dev ^ 0x5a5a_5a5a);
+                let r1 = unsafe { target.read() };
+                let r2 = unsafe { target.read() };
+                let log = cpu().take_log();
+                ensure!(log.len() == 2 && log.iter().all(|t| t.op == Op::In && t.a == port as u64), "two consecutive Port::read calls must execute two port reads, trapped {:x?}", log);
+                ensure_eq!((r1 as u64, r2 as u64), (!$dev & mask($W), ($dev ^ 0x5a5a_5a5a) & mask($W)), "values of two consecutive reads");
+                c.push_in(1);
+                let _ = unsafe { target.read() };
+                let log = cpu().take_log();
+                ensure!(log.len() == 1 && log[0].op == Op::In, "a read whose value is discarded must still access the port, trapped {:x?}", log);
             }
             1 => {
                 let mut p: PortReadOnly<$T> = PortReadOnly::new(port);
@@ -50,6 +62,13 @@ macro_rules! rw_case {
                 let r = unsafe { target.read() };
                 expect_one(concat!("PortReadOnly<", stringify!($T), ">::read"), Op::In, $W, port, $dev)?;
                 ensure_eq!(r as u64, $dev & mask($W), "PortReadOnly<{}>::read return value", stringify!($T));
+                c.push_in(!$dev);
+                c.push_in($dev ^ 0x5a5a_5a5a);
+                let r1 = unsafe { target.read() };
+                let r2 = unsafe { target.read() };
+                let log = cpu().take_log();
+                ensure!(log.len() == 2 && log.iter().all(|t| t.op == Op::In && t.a == port as u64), "two consecutive PortReadOnly::read calls must execute two port reads, trapped {:x?}", log);
+                ensure_eq!((r1 as u64, r2 as u64), (!$dev & mask($W), ($dev ^ 0x5a5a_5a5a) & mask($W)), "values of two consecutive reads");
             }
             _ => {
                 let mut p: PortWriteOnly<$T> = PortWriteOnly::new(port);
@@ -58,6 +77,10 @@ macro_rules! rw_case {
                 c.clear_log();
                 unsafe { target.write($val as $T) };
                 expect_one(concat!("PortWriteOnly<", stringify!($T), ">::write"), Op::Out, $W, port, $val as u64)?;
+                unsafe { target.write($val as $T) };
+                unsafe { target.write($val as $T) };
+                let log = cpu().take_log();
+                ensure!(log.len() == 2 && log.iter().all(|t| t.op == Op::Out && t.a == port as u64 && t.b == ($val as u64) & mask($W)), "two identical consecutive writes must both reach the port, trapped {:x?}", log);
             }
         }
     }};
